@@ -4,28 +4,28 @@ CONSTANTS
   CupOn = FALSE
   Apps0 <- MCApps1
   SysApp = "a"
-  UcAnswers <- MCUcSched
+  UcAnswers <- MCUcHistory
   EvAnswers <- MCEvOk
   PingAnswers <- MCPing
   PlanAnswers = {"ok"}
   StartAnswers = {"ok"}
-  ResultLetters = {"i"}
-  NeededAnswers = {TRUE, FALSE}
+  ResultLetters = {"i", "f"}
+  NeededAnswers = {TRUE}
   AllowedAnswers = {TRUE, FALSE}
-  CheckAnswers <- MCCheckSched
-  NextAnswers <- MCNextAll
+  CheckAnswers <- MCCheckOkOnly
+  NextAnswers <- MCNext1
   BackoffDraws = {0}
   ProgressSeqs <- MCProg0
-  MaxChecks = 1
-  MaxCtl = 2
+  MaxChecks = 2
+  MaxCtl = 1
   CtlSources <- MCSrcBoth
-  MaxRebootAsks = 2
-  MaxCrashes = 0
-  RestartRuns <- MCRestartNone
+  MaxRebootAsks = 1
+  MaxCrashes = 2
+  RestartRuns <- MCRestarts
   FailSets <- MCFailNone
-  Jumps <- MCJumpNone
-  MaxJumps = 0
+  Jumps <- MCJumps
+  MaxJumps = 2
   Mut = "none"
 INVARIANT NoViolation
-VIEW View
+INVARIANT PrintDone
 CHECK_DEADLOCK FALSE
